@@ -1,13 +1,16 @@
 """C14 -- malformed input is rejected only through the documented exception family.
 
 Two parts:
- * theorems (coq/Props/C14.v): for every modelled decoder/parser the exception-faithful model
-   never leaves the family (`*_no_escape`), for ALL inputs;
- * this module: the obligation list = every public entry point that takes str/bytes (built
-   reflectively from the package, so a new entry point is picked up), each driven with generic
-   junk and structure-aware mutations of valid encodings.  Entry points that have a model are in
-   addition compared with it (MODEL_MAP).  The rest is differential fuzzing only -- a test, not a
-   proof -- and the evidence lists which is which.
+ * theorems (coq/Props/C14.v, lemmas in coq/Lemmas/NoEscape*.v): for every modelled decoder / parser /
+   deserialiser / validator / constructor the exception-faithful model never leaves the family
+   (`*_no_escape`), for ALL inputs; where the faithful model does leave it the full statement is refuted with
+   a witness and the guard under which it holds is a `_partial` theorem (WifDecoder net_ver);
+ * this module: the obligation list = every public entry point that takes str/bytes (built reflectively from
+   the package, so a new entry point is picked up), each driven with generic junk and structure-aware mutations
+   of valid encodings ("<entry>" cases: exception family + wall clock).  Entry points that have a model are in
+   addition compared with it on the same inputs ("model:<entry>" cases, MODEL_MAP below).  The rest is
+   differential fuzzing only -- a test, not a proof -- and the evidence lists which is which
+   (coverage.exhaustive_subdomains).
 """
 import time
 
@@ -18,28 +21,38 @@ from bip_utils.bip.bip38.bip38_ec import Bip38EcKeysGenerator
 from framework import Func, IN_FAMILY, exn_name
 
 MANIFEST = {
-    "text": "For the modelled decoders/parsers: Coq theorems that the exception-faithful model never leaves the "
-            "documented family, for all inputs; for all ~190 str/bytes entry points (enumerated reflectively): "
-            "junk + structure-aware mutation run checking the exception class and a wall-clock bound.",
-    "note": "Entry points without a model are covered by fuzzing only (listed in the evidence); third-party "
-            "exception behaviour is observed, not proved; 'promptly' is a wall-clock test.",
-    "technique": "Coq proof of no-escape for modelled entry points + reflective entry-point census + mutation fuzzing "
-                 "against the exception family",
+    "text": "Coq theorems (one per modelled entry point, ~85: text/wire codecs, path parsers, BIP-39 and the other "
+            "mnemonic decoders/validators/generators, seed generators, extended-key and SLIP-32 deserialisers, WIF, "
+            "BIP-38, EC key byte constructors, master key from seed, 27 address decoders) that the exception-faithful "
+            "model never leaves the documented family, for all inputs and arbitrary hash/KDF/curve oracles; for all "
+            "~235 str/bytes entry points (enumerated reflectively): junk + structure-aware mutation run checking the "
+            "exception class and a wall-clock bound, and for the ~120 modelled ones a differential comparison with the "
+            "extracted model on the same inputs.",
+    "note": "Entry points without a model (Bech32/SegWit/CashAddr codecs and the address decoders on them, Cardano and "
+            "Monero addresses, wallet-level constructors) are covered by fuzzing only (listed in the evidence); the "
+            "Bech32-based address pipelines are proved relative to the codec decoder staying in the family; third-party "
+            "exception behaviour is observed, not proved; 'promptly' is a wall-clock test; the master-key loop's "
+            "termination is not a theorem (in_family_or_fuel).",
+    "technique": "Coq proof of no-escape for modelled entry points (error-site analysis: IndexError/OverflowError sites "
+                 "shown unreachable after the preceding length checks) + reflective entry-point census + mutation "
+                 "fuzzing against the exception family + model/implementation differential on the fuzz stream",
     "ref": "7/C14",
 }
 RULE = ("Inputs per entry point: fixed junk list (empty, 1-3 symbols, NUL, non-ASCII, non-BMP, lone surrogate, "
         "over-long) + mutations of valid seeds (all truncations, extensions, splices, single-symbol flips, case "
-        "changes, payload-level corruption re-encoded with a valid checksum).")
+        "changes, payload-level corruption re-encoded with a valid checksum).  Entry points with a model are in addition "
+        "compared with it (cases 'model:<entry>') on the junk list, the seeds and a sample of the mutations (half of it "
+        "from the payload-level ones); inputs over 1500 symbols are model-compared for the path parsers only.")
 TRUSTED = ["the reflective census (dir(bip_utils) + name patterns) defines the obligation list"]
 ASSUMPTIONS = ["third-party libraries (coincurve, PyNaCl, cbor2, ecdsa) raise what they are observed to raise"]
-BUDGET = {"quick": 170, "thorough": 1500}
+BUDGET = {"quick": 200, "thorough": 1500}
 
 SEED = bytes(range(1, 65))
 ENTRIES = {}     # name -> dict(kind, call, seeds, slow)
 
 
-def E(name, kind, call, seeds=(), slow=False):
-    ENTRIES[name] = {"kind": kind, "call": call, "seeds": list(seeds), "slow": slow}
+def E(name, kind, call, seeds=(), slow=False, meta=None):
+    ENTRIES[name] = {"kind": kind, "call": call, "seeds": list(seeds), "slow": slow, "meta": meta}
 
 
 # --------------------------------------------------------------------------- census
@@ -86,7 +99,7 @@ def build():
         if n_by[dname] > 3:
             continue
         E("%s.DecodeAddr[%s]" % (dname, cname), "str",
-          (lambda d, p: lambda s: d.DecodeAddr(s, **p))(dec, params), seeds)
+          (lambda d, p: lambda s: d.DecodeAddr(s, **p))(dec, params), seeds, meta=(dname, params))
     # special address families
     sh = CardanoShelley.FromCip1852Object(Cip1852.FromSeed(SEED, Cip1852Coins.CARDANO_ICARUS).Purpose().Coin().Account(0))
     for nm, obj in (("AdaShelleyStakingAddrDecoder", sh.StakingObject()), ("AdaShelleyRewardAddrDecoder", sh.RewardObject())):
@@ -137,6 +150,8 @@ def build():
     E("WifDecoder.Decode", "str", lambda s: WifDecoder.Decode(s),
       [wif, WifEncoder.Encode(bytes(range(1, 33)), pub_key_mode=WifPubKeyModes.UNCOMPRESSED), Base58Encoder.CheckEncode(b""),
        Base58Encoder.CheckEncode(b"\x80")])
+    # the bytes-typed second argument of the WIF decoder (finding C14-WIF-NETVER: ord() of a non-1-byte value)
+    E("WifDecoder.Decode[net_ver]", "bytes", lambda b: WifDecoder.Decode(wif, b), [b"\x80", b"\xef"])
     E("BytesUtils.FromHexString", "str", lambda s: BytesUtils.FromHexString(s), ["00ff10", "abc"])
     E("BytesUtils.FromBinaryStr", "str", lambda s: BytesUtils.FromBinaryStr(s), ["0101", "2"])
     E("IntegerUtils.FromBinaryStr", "str", lambda s: IntegerUtils.FromBinaryStr(s), ["0101"])
@@ -485,18 +500,271 @@ def _direct(name):
     return chk
 
 
-MODEL_MAP = {
-    "Base58Decoder.Decode[btc]": lambda m, a: m.call("b58_decode", 0, a[0]),
-    "Base58Decoder.Decode[xrp]": lambda m, a: m.call("b58_decode", 1, a[0]),
-    "Base58Decoder.CheckDecode[btc]": lambda m, a: m.call("b58_check_decode", 0, a[0]),
-    "Base58Decoder.CheckDecode[xrp]": lambda m, a: m.call("b58_check_decode", 1, a[0]),
-}
+# --------------------------------------------------------------------------- model map
+#
+# Every census entry whose exception-faithful model is merged is ALSO compared with that model, on the same
+# inputs as the fuzz run.  MODEL_MAP[name] = M(model, impl=None, shape=None):
+#   model(m, x) -> ('ok', v) | ('err', class)   -- the call the model's own property module makes (FUNCS of
+#                                                   harness/props/Cxx.py), through Q(m, "<group>") which
+#                                                   qualifies the API name with its group;
+#   impl(x)     -> comparable value of the SAME public entry point (default: the census call);
+#   shape       -> None: values are compared; "class": only the outcome class (ok / exception class) is compared,
+#                  because the entry point returns an object (or draws randomness) the model does not rebuild.
+# PATTERN for a new model: add its line here; nothing else in this file changes.
 
+class Q:
+    """ModelDriver proxy that qualifies unqualified API names with one group (names clash across groups)."""
+    def __init__(self, m, group):
+        self.m, self.group = m, group
+
+    def call(self, name, *args):
+        return self.m.call(name if "." in name else self.group + "." + name, *args)
+
+
+class M:
+    def __init__(self, model, impl=None, shape=None, merge=None):
+        self.model, self.impl, self.shape, self.merge = model, impl, shape, merge or {}
+
+
+def _props(mod):
+    import importlib
+    return importlib.import_module("props." + mod)
+
+
+def via(mod, fn, group, args=lambda x: [x], shape=None, census_impl=False, merge=None):
+    """Reuse FUNCS[fn] of props/<mod>.py (its model call and its normalising impl) on arguments built from x."""
+    f = _props(mod).FUNCS[fn]
+    return M(lambda m, x: f.model(Q(m, group), args(x)),
+             None if (census_impl or shape == "class") else (lambda x: f.impl(args(x))), shape, merge)
+
+
+def words(x):
+    return x.split()
+
+
+MODEL_MAP = {}
+LONG_OK = {"Bip32PathParser.Parse", "SubstratePathParser.Parse", "SubstratePathElem.ChainCode"}
+
+
+def build_model_map():
+    MM = MODEL_MAP
+    # ---- text / wire codecs (C11: groups base58, codecs)
+    MM["Base58Decoder.Decode[btc]"] = M(lambda m, x: m.call("base58.b58_decode", 0, x))
+    MM["Base58Decoder.Decode[xrp]"] = M(lambda m, x: m.call("base58.b58_decode", 1, x))
+    MM["Base58Decoder.CheckDecode[btc]"] = M(lambda m, x: m.call("base58.b58_check_decode", 0, x))
+    MM["Base58Decoder.CheckDecode[xrp]"] = M(lambda m, x: m.call("base58.b58_check_decode", 1, x))
+    MM["Base58XmrDecoder.Decode"] = M(lambda m, x: m.call("codecs.xmr_decode", x))
+    MM["Base32Decoder.Decode"] = M(lambda m, x: m.call("codecs.b32_decode", x, []))
+    MM["Base32Decoder.Decode[custom]"] = M(lambda m, x: m.call("codecs.b32_decode", x, ["13456789abcdefghijkmnopqrstuwxyz"]))
+    MM["SS58Decoder.Decode"] = via("C11", "ss58_decode", "codecs")
+    MM["BytesUtils.FromHexString"] = M(lambda m, x: m.call("codecs.hex_decode", x))
+    MM["BytesUtils.FromBinaryStr"] = M(lambda m, x: m.call("codecs.bytes_from_binstr", x, 0))
+    MM["IntegerUtils.FromBinaryStr"] = M(lambda m, x: m.call("codecs.int_from_binstr", x))
+    MM["CborIndefiniteLenArrayDecoder.Decode"] = via("C11", "cbor_decode", "codecs")
+    # ---- paths (C06, C19: group paths)
+    MM["Bip32PathParser.Parse"] = via("C06", "bip32_parse", "paths")
+    MM["Bip32KeyIndex.FromBytes"] = M(lambda m, x: m.call("paths.bip32_index_from_bytes", x), impl=lambda x: int(Bip32KeyIndex.FromBytes(x)))
+    MM["SubstratePathParser.Parse"] = via("C19", "sub_parse", "paths")
+
+    def chain_code_model(m, x):
+        r = m.call("paths.sub_make_elem", x)           # SubstratePathElem(x) ...
+        if r[0] == "err":
+            return r
+        return m.call("paths.sub_chain_code", r[1][0])   # ... .ChainCode() of its body
+    MM["SubstratePathElem.ChainCode"] = M(chain_code_model)
+    # ---- BIP-39 and seed generators (C01, C02: group bip39); language None = automatic detection
+    MM["Bip39MnemonicDecoder.Decode"] = via("C01", "bip39_decode_str", "bip39", lambda x: [None, x])
+    MM["Bip39MnemonicValidator.Validate"] = via("C01", "bip39_decode_str", "bip39", lambda x: [None, x], shape="class")
+    MM["Bip39MnemonicDecoder.DecodeWithChecksum"] = via("C01", "bip39_decode_ck_str", "bip39", lambda x: [None, x])
+    MM["Bip39MnemonicValidator.IsValid"] = via("C01", "bip39_is_valid_str", "bip39", lambda x: [None, x])
+    MM["Bip39Mnemonic.FromString"] = M(lambda m, x: Q(m, "bip39").call("bip39_normalize", x), impl=lambda x: Bip39Mnemonic.FromString(x).ToList())
+    MM["Bip39SeedGenerator"] = via("C02", "bip39_seed_str", "bip39", lambda x: [None, x, ""])
+    MM["SubstrateBip39SeedGenerator"] = via("C02", "substrate_seed_str", "bip39", lambda x: [None, x, ""])
+    MM["ElectrumV2SeedGenerator"] = via("C02", "electrum_v2_seed_str", "bip39", lambda x: [x, ""])
+    # ---- Monero / Algorand / Electrum mnemonics (C17: group mnem); the model takes the word list of the Mnemonic
+    #      object (Mnemonic.FromString = str.split()); NOLANG = automatic language / all types
+    c17 = _props("C17")
+    NOLANG = c17.NOLANG
+    for k in ("Monero", "MoneroNoChk"):
+        MM[k + "MnemonicDecoder.Decode"] = M(lambda m, x: m.call("mnem.xmr_decode", NOLANG, words(x)))
+        MM[k + "MnemonicValidator.Validate"] = M(lambda m, x: m.call("mnem.xmr_decode", NOLANG, words(x)), shape="class")
+        MM[k + "MnemonicValidator.IsValid"] = M(lambda m, x: m.call("mnem.xmr_is_valid", NOLANG, words(x)))
+    MM["MoneroSeedGenerator"] = M(lambda m, x: m.call("mnem.xmr_decode", NOLANG, words(x)))
+    # Bip39Mnemonic-derived classes normalise each word (lower + NFKD) twice on the str path: k = 2
+    MM["AlgorandMnemonicDecoder.Decode"] = M(lambda m, x: m.call("mnem.algo_decode", 1, 2, words(x)))
+    MM["AlgorandMnemonicValidator.Validate"] = M(lambda m, x: m.call("mnem.algo_decode", 1, 2, words(x)), shape="class")
+    MM["AlgorandMnemonicValidator.IsValid"] = M(lambda m, x: m.call("mnem.algo_is_valid", 1, 2, words(x)))
+    MM["AlgorandSeedGenerator"] = M(lambda m, x: m.call("mnem.algo_decode", 1, 2, words(x)))
+    MM["ElectrumV1MnemonicDecoder.Decode"] = M(lambda m, x: m.call("mnem.ev1_decode", 1, 2, words(x)))
+    MM["ElectrumV1MnemonicValidator.Validate"] = M(lambda m, x: m.call("mnem.ev1_decode", 1, 2, words(x)), shape="class")
+    MM["ElectrumV1MnemonicValidator.IsValid"] = M(lambda m, x: m.call("mnem.ev1_is_valid", 1, 2, words(x)))
+    MM["ElectrumV2MnemonicDecoder.Decode"] = M(lambda m, x: m.call("mnem.ev2_decode", 1, NOLANG, NOLANG, 2, words(x)))
+    MM["ElectrumV2MnemonicValidator.Validate"] = M(lambda m, x: m.call("mnem.ev2_decode", 1, NOLANG, NOLANG, 2, words(x)), shape="class")
+    MM["ElectrumV2MnemonicValidator.IsValid"] = M(lambda m, x: m.call("mnem.ev2_is_valid", 1, NOLANG, NOLANG, 2, words(x)))
+    # the generators' bytes constructors (the word lists come back as lists of words)
+    MM["Bip39MnemonicGenerator.FromEntropy"] = M(lambda m, x: m.call("bip39.bip39_encode", _props("C01").EN, x),
+                                                 impl=lambda x: Bip39MnemonicGenerator().FromEntropy(x).ToList())
+    MM["MoneroMnemonicGenerator.FromEntropyNoChecksum"] = M(
+        lambda m, x: m.call("mnem.xmr_encode", c17.XL.index(MoneroLanguages.ENGLISH), 0, x),
+        impl=lambda x: MoneroMnemonicGenerator().FromEntropyNoChecksum(x).ToList())
+    MM["MoneroMnemonicGenerator.FromEntropyWithChecksum"] = M(
+        lambda m, x: m.call("mnem.xmr_encode", c17.XL.index(MoneroLanguages.ENGLISH), 1, x),
+        impl=lambda x: MoneroMnemonicGenerator().FromEntropyWithChecksum(x).ToList())
+    MM["AlgorandMnemonicGenerator.FromEntropy"] = M(lambda m, x: m.call("mnem.algo_encode", x),
+                                                    impl=lambda x: AlgorandMnemonicGenerator().FromEntropy(x).ToList())
+    MM["ElectrumV1MnemonicGenerator.FromEntropy"] = M(lambda m, x: m.call("mnem.ev1_encode", x),
+                                                      impl=lambda x: ElectrumV1MnemonicGenerator().FromEntropy(x).ToList())
+    # ---- extended keys, SLIP-32, WIF, BIP-38 (C05, C13: group serbip)
+    c05 = _props("C05")
+    MM["Bip32KeyDeserializer.DeserializeKey"] = via("C05", "c05_deserialize", "serbip", lambda x: [c05.MAIN[0], c05.MAIN[1], x])
+    for cname, cid, ver in (("Bip32Slip10Secp256k1", 0, c05.MAIN), ("Bip32KholawEd25519", 1, c05.KHOLAW),
+                            ("Bip32Slip10Ed25519", 2, c05.MAIN)):
+        assert c05.CLS[cid].__name__ == cname
+        MM[cname + ".FromExtendedKey"] = via("C05", "c05_from_extended", "serbip",
+                                             (lambda cid_, ver_: lambda x: [cid_, ver_[0], ver_[1], x])(cid, ver))
+    from bip_utils.slip.slip32 import Slip32KeyNetVersions  # noqa
+    # The Bech32 decoder is a PARAMETER of the SLIP-32 model, answered by a reference decoder (oracles_serbip.py) that
+    # predates /repo's acceptance of an empty data part ("xprv1" + 6 checksum symbols): on such strings with a wrong
+    # checksum it says ValueError where the library says Bech32ChecksumError.  Which of the two the Bech32 layer raises
+    # is the Bech32 model's business (C10); here the two classes of that layer are merged.
+    MM["Slip32KeyDeserializer.DeserializeKey"] = via("C05", "slip32_deserialize", "serbip", lambda x: ["xpub", "xprv", x],
+                                                     merge={"Bech32ChecksumError": "ValueError"})
+    MM["Bip32ChainCode"] = M(lambda m, x: m.call("serbip.c05_mk_key_data", Z(0), Z(0), x, bytes(4)), shape="class")
+    MM["Bip32FingerPrint"] = M(lambda m, x: m.call("serbip.c05_mk_key_data", Z(0), Z(0), bytes(32), x), shape="class")
+    MM["Bip32KeyNetVersions"] = M(lambda m, x: m.call("serbip.c05_mk_key_net_ver", x, x), shape="class")
+    MM["WifDecoder.Decode"] = via("C13", "wif_decode", "serbip", lambda x: [x, b"\x80"])
+    MM["Bip38Decrypter.DecryptNoEc"] = via("C13", "bip38_noec_decrypt", "serbip", lambda x: [x, "TestingOneTwoThree"])
+    MM["Bip38Decrypter.DecryptEc"] = via("C13", "bip38_ec_decrypt", "serbip", lambda x: [x, "TestingOneTwoThree"])
+    # the library draws seedb at random: only the outcome class is comparable
+    MM["Bip38EcKeysGenerator.GeneratePrivateKey"] = via("C13", "bip38_ec_gen_private_key", "serbip",
+                                                        lambda x: [x, 1, bytes(range(24))], shape="class")
+    # ---- EC key layer (C12: group ecc).  The constructors return objects: outcome classes are compared; IsValidBytes
+    #      returns a bool: compared exactly.  cur = 1 selects the variant faithful to today's code where C12 has an open
+    #      finding (non-canonical ed25519 encodings, 64-byte ed25519-blake2b keys); k: 0 secp256k1/coincurve, 2 nist256p1,
+    #      3..6 ed25519 / blake2b / kholaw / monero.
+    c12 = _props("C12")
+    assert Secp256k1PrivateKey is c12.W[0][0] and Nist256p1PrivateKey is c12.W[2][0]
+    for cn, k in (("Secp256k1", 0), ("Nist256p1", 2)):
+        MM[cn + "PrivateKey.FromBytes"] = M((lambda k_: lambda m, x: m.call("ecc.w_priv_from_bytes", k_, x))(k), shape="class")
+        MM[cn + "PrivateKey.IsValidBytes"] = M((lambda k_: lambda m, x: m.call("ecc.w_priv_is_valid", k_, x))(k))
+        MM[cn + "PublicKey.FromBytes"] = M((lambda k_: lambda m, x: m.call("ecc.w_pub_from_bytes", k_, x))(k), shape="class")
+        MM[cn + "PublicKey.IsValidBytes"] = M((lambda k_: lambda m, x: m.call("ecc.w_pub_is_valid", k_, x))(k))
+        MM[cn + "Point.FromBytes"] = M((lambda k_: lambda m, x: m.call("ecc.w_point_from_bytes", 0, k_, x))(k), shape="class")
+    for cn, k in (("Ed25519", 3), ("Ed25519Blake2b", 4), ("Ed25519Kholaw", 5), ("Ed25519Monero", 6)):
+        assert getattr(bip_utils, cn + "PrivateKey") is c12.ED[k][0]
+        MM[cn + "PrivateKey.FromBytes"] = M((lambda k_: lambda m, x: m.call("ecc.e_priv_from_bytes", 1, k_, x))(k), shape="class")
+        MM[cn + "PrivateKey.IsValidBytes"] = M((lambda k_: lambda m, x: m.call("ecc.e_priv_is_valid", 1, k_, x))(k))
+        MM[cn + "PublicKey.FromBytes"] = M((lambda k_: lambda m, x: m.call("ecc.e_pub_from_bytes", 1, k_, x))(k), shape="class")
+        MM[cn + "PublicKey.IsValidBytes"] = M((lambda k_: lambda m, x: m.call("ecc.e_pub_is_valid", 1, k_, x))(k))
+        MM[cn + "Point.FromBytes"] = M(lambda m, x: m.call("ecc.e_point_from_bytes", 1, x), shape="class")
+    MM["Sr25519PrivateKey.FromBytes"] = M(lambda m, x: m.call("ecc.sr_priv_from_bytes", x), shape="class")
+    MM["Sr25519PublicKey.FromBytes"] = M(lambda m, x: m.call("ecc.sr_pub_from_bytes", x), shape="class")
+    # ---- master key from a seed (C03: group deriv): FromSeed(seed) observed through an empty relative path
+    c03 = _props("C03")
+    for cid, cls in enumerate(c03.CLS):
+        MM[cls.__name__ + ".FromSeed"] = via("C03", "seed_path", "deriv", (lambda c_: lambda x: [c_, x, 0, []])(cid))
+    # FromSeedAndPath(seed, str) = FromSeed(seed).DerivePath(Bip32PathParser.Parse(str)): the composition of the path
+    # model (group paths) and the derivation model (group deriv), observed like C03 observes a derived object
+    def seed_and_path_model(cid):
+        def f(m, x):
+            r = m.call("paths.bip32_parse", x)
+            if r[0] == "err":
+                return r
+            elems, is_abs = r[1]
+            return m.call("deriv.slip10_seed_path", cid, 0, c03.FUEL, [], SEED, int(bool(is_abs)), [int(i) for i in elems])
+        return f
+    for cid, cls in enumerate(c03.CLS):
+        MM[cls.__name__ + ".FromSeedAndPath"] = M(seed_and_path_model(cid),
+                                                  impl=(lambda c_, k_: lambda x: c03.obs(c_, k_.FromSeedAndPath(SEED, x)))(cid, cls))
+    # Substrate.FromSeedAndPath(seed, str): sr25519 pair from the seed (oracle), then the path model's DerivePath(str)
+    c19 = _props("C19")
+    sub_pk, sub_sk = c19.seed_keys(SEED[:32])
+    MM["Substrate.FromSeedAndPath"] = M(lambda m, x: c19.model_derive(Q(m, "paths"), [[sub_sk], sub_pk, x]), shape="class")
+    # <Bip32 class>.FromPrivateKey(bytes) / FromPublicKey(bytes) with the default key data, observed through ToExtended()
+    for cname, cid, ver in (("Bip32Slip10Secp256k1", 0, c05.MAIN), ("Bip32KholawEd25519", 1, c05.KHOLAW),
+                            ("Bip32Slip10Ed25519", 2, c05.MAIN)):
+        MM[cname + ".FromPrivateKey"] = M(
+            (lambda cid_, ver_: lambda m, x: m.call("serbip.c05_ser_priv", cid_, ver_[0], ver_[1], Z(0), Z(0), bytes(32), bytes(4), x))(cid, ver),
+            shape="class")
+        MM[cname + ".FromPublicKey"] = M(
+            (lambda cid_, ver_: lambda m, x: m.call("serbip.c05_ser_pub", cid_, ver_[0], ver_[1], Z(0), Z(0), bytes(32), bytes(4), x))(cid, ver),
+            shape="class")
+    # ElectrumV1.FromPrivateKey(bytes) / FromPublicKey(bytes), observed through the first public key
+    MM["ElectrumV1.FromPrivateKey"] = M(lambda m, x: m.call("serbip.electrum_v1_pub", 0, x, Z(0), Z(0)), shape="class")
+    MM["ElectrumV1.FromPublicKey"] = M(lambda m, x: m.call("serbip.electrum_v1_pub", 1, x, Z(0), Z(0)), shape="class")
+    # ---- address decoders (C09: group addr), parameters from the coin tables (meta of the census entry)
+    addr = {
+        "P2PKHAddrDecoder": lambda p: (lambda m, x: m.call("addr.p2pkh_decode", 0, p["net_ver"], x)),
+        "P2SHAddrDecoder": lambda p: (lambda m, x: m.call("addr.p2sh_decode", p["net_ver"], x)),
+        "XrpAddrDecoder": lambda p: (lambda m, x: m.call("addr.xrp_decode", x)),
+        "XtzAddrDecoder": lambda p: (lambda m, x: m.call("addr.xtz_decode", p["prefix"].value, x)),
+        "NeoLegacyAddrDecoder": lambda p: (lambda m, x: m.call("addr.neo_decode", p["ver"], x)),
+        "NeoN3AddrDecoder": lambda p: (lambda m, x: m.call("addr.neo_decode", p["ver"], x)),
+        "EosAddrDecoder": lambda p: (lambda m, x: m.call("addr.eos_decode", x)),
+        "ErgoP2PKHAddrDecoder": lambda p: (lambda m, x: m.call("addr.ergo_decode", int(p["net_type"].value), x)),
+        "SolAddrDecoder": lambda p: (lambda m, x: m.call("addr.sol_decode", x)),
+        "EthAddrDecoder": lambda p: (lambda m, x: m.call("addr.eth_decode", 0, x)),
+        "TrxAddrDecoder": lambda p: (lambda m, x: m.call("addr.trx_decode", x)),
+        "IcxAddrDecoder": lambda p: (lambda m, x: m.call("addr.icx_decode", x)),
+        "NearAddrDecoder": lambda p: (lambda m, x: m.call("addr.near_decode", x)),
+        "SuiAddrDecoder": lambda p: (lambda m, x: m.call("addr.sui_decode", x)),
+        "AptosAddrDecoder": lambda p: (lambda m, x: m.call("addr.aptos_decode", x)),
+        # Base32 / SS58 pipelines of Model/AddrText.v over the merged codec models (group addrtext); curve tag of the
+        # key-validity oracle: 2 ed25519, 3 ed25519-blake2b, 4 sr25519
+        "AlgoAddrDecoder": lambda p: (lambda m, x: m.call("addrtext.algo_addr_decode", x)),
+        "XlmAddrDecoder": lambda p: (lambda m, x: m.call("addrtext.xlm_addr_decode", int(p["addr_type"].value), x)),
+        "FilSecp256k1AddrDecoder": lambda p: (lambda m, x: m.call("addrtext.fil_addr_decode", x)),
+        "NanoAddrDecoder": lambda p: (lambda m, x: m.call("addrtext.nano_addr_decode", x)),
+        "NimAddrDecoder": lambda p: (lambda m, x: m.call("addrtext.nim_addr_decode", x)),
+        "SubstrateEd25519AddrDecoder": lambda p: (lambda m, x: m.call("addrtext.substrate_addr_decode", 2, int(p["ss58_format"]), x)),
+    }
+    for name, e in ENTRIES.items():
+        if e["meta"] and e["meta"][0] in addr:
+            dname, params = e["meta"]
+            if dname == "P2PKHAddrDecoder" and set(params) != {"net_ver"}:
+                continue
+            MM[name] = M(addr[dname](params))
+    MM["SubstrateSr25519AddrDecoder.DecodeAddr"] = M(lambda m, x: m.call("addrtext.substrate_addr_decode", 4, 0, x))
+    MM["SplToken.GetAssociatedTokenAddress"] = M(
+        lambda m, x: m.call("serbip.spl_get_ata", x, "EPjFWdd5AufqSSqeM2qN1xzybapC8G4wEGGkZwyTDt1v"))
+    for n in MM:
+        assert n in ENTRIES, "MODEL_MAP names an entry point that is not in the census: " + n
+
+
+from modeldrv import Z  # noqa: E402
+build_model_map()
+
+
+def _model_func(name):
+    mm = MODEL_MAP[name]
+    call = ENTRIES[name]["call"]
+    cls_only = mm.shape == "class"
+
+    def model(m, a):
+        r = mm.model(m, a[0])
+        if r[0] == "err":
+            return ("err", mm.merge.get(r[1], r[1]))
+        return ("ok", 1) if cls_only else r
+
+    def impl(a):
+        try:
+            v = (mm.impl or call)(a[0])
+        except Exception as e:  # noqa
+            if exn_name(e) in mm.merge:
+                raise {"ValueError": ValueError}[mm.merge[exn_name(e)]]("merged class") from e
+            raise
+        return 1 if cls_only else v
+    return Func(model=model, impl=impl)
+
+
+# "<entry>" : the fuzz obligation (exception family + wall clock) on EVERY generated input;
+# "model:<entry>" : the correspondence of the same entry point with its model on the junk list and a sample of the
+# mutation stream (the model driver is ~100x slower than the implementation).
 FUNCS = {}
-for _n, _e in ENTRIES.items():
-    _mdl = MODEL_MAP.get(_n)
-    FUNCS[_n] = Func(model=_mdl, impl=(lambda n_: lambda a: ENTRIES[n_]["call"](a[0]))(_n) if _mdl else None,
-                     direct=_direct(_n))
+for _n in ENTRIES:
+    FUNCS[_n] = Func(direct=_direct(_n))
+    if _n in MODEL_MAP:
+        FUNCS["model:" + _n] = _model_func(_n)
 
 
 def generate(ctx):
@@ -505,8 +773,12 @@ def generate(ctx):
     only = os.environ.get("VERIF_ONLY")
     names = sorted(n for n in ENTRIES if not only or any(o in n for o in only.split(",")))
     per = ctx.n(10, 600)
+    mcap = ctx.n(160, 900)          # model comparisons per entry point beyond the junk list and the seeds
+    n_model = 0
+    truncated = []
     for name in names:
         e = ENTRIES[name]
+        deep = []                   # mutations below the checksum / word layer: they reach the inner error sites
         if e["kind"] == "str":
             inputs = list(JUNK_STR)
             for s in e["seeds"]:
@@ -515,25 +787,79 @@ def generate(ctx):
                     inputs += mutate_str(s, rng, 4)[:40]
                 else:
                     inputs += mutate_str(s, rng, per)
-                    inputs += payload_mutations(name, s, rng)
-                    inputs += bech32_family_mutations(s, rng)
+                    d = payload_mutations(name, s, rng) + bech32_family_mutations(s, rng)
                     if "Mnemonic" in name or "SeedGenerator" in name:
-                        inputs += mutate_words(s, rng)
+                        d += mutate_words(s, rng)
+                    inputs += d
+                    deep += d
         else:
             inputs = list(JUNK_BYTES)
             for b in e["seeds"]:
                 inputs.append(b)
                 inputs += mutate_bytes(b, rng, per)
-        seen = set()
+        seen, uniq = set(), []
         for x in inputs:
-            if x in seen:
-                continue
-            seen.add(x)
+            if x not in seen:
+                seen.add(x)
+                uniq.append(x)
+        modelled = name in MODEL_MAP and ctx.m is not None
+        junk = set(JUNK_STR) | set(JUNK_BYTES)
+        fixed = junk | set(e["seeds"])
+        rest = [x for x in uniq if x not in fixed]
+        if e["slow"]:
+            sample = set(e["seeds"]) | set(rest[:3]) | {"", "a", "z" * 11}      # scrypt per structurally valid input
+        elif len(rest) <= mcap:
+            sample = fixed | set(rest)
+        else:                        # half of the sample from the deep mutations, half from the text-level ones
+            dset = set(deep)
+            dl = [x for x in rest if x in dset]
+            tl = [x for x in rest if x not in dset]
+            nd = min(len(dl), max(mcap // 2, mcap - len(tl)))
+            sample = fixed | set(rng.sample(dl, nd)) | set(rng.sample(tl, min(len(tl), mcap - nd)))
+        # the extracted model's big-number arithmetic is quadratic: a 5000-symbol Base58 string costs ~17 s.  Over-long
+        # inputs (> LONG symbols) are model-compared only for the parsers whose digit-limit behaviour is the point
+        # (4300-digit int() limit), and there at most 8 of them; the fuzz obligation itself runs on all of them.
+        LONG = ctx.n(1500, 3000)
+        longs = [x for x in uniq if x in sample and len(x) > LONG]
+        keep_long = set(longs[:8]) if name in LONG_OK else set()
+        sample = {x for x in sample if len(x) <= LONG} | keep_long
+        for x in uniq:
             if not ctx.time_left():
+                truncated.append(name)
                 break
-            ctx.run(name, [x], "junk" if (x in JUNK_STR or x in JUNK_BYTES) else "mut", trivial=(len(x) == 0))
+            tag = "junk" if x in junk else "mut"
+            ctx.run(name, [x], tag, trivial=(len(x) == 0))
+            if modelled and x in sample:
+                ctx.run("model:" + name, [x], tag, trivial=True)
+                n_model += 1
     ctx.dist["entry_points"] = len(names)
     ctx.dist["modelled"] = sorted(MODEL_MAP)
+    ctx.dist["unmodelled"] = sorted(n for n in ENTRIES if n not in MODEL_MAP)
+    ctx.dist["model_comparisons"] = n_model
+    if truncated:
+        ctx.note_exhaustive("TIME BUDGET EXHAUSTED: input streams cut short for %d entry points from %s on" % (len(truncated), truncated[0]))
+    ctx.note_exhaustive("entry points compared with their model (%d of %d): %s" % (
+        len(MODEL_MAP), len(ENTRIES), ", ".join(sorted(MODEL_MAP))))
+    ctx.note_exhaustive("entry points covered by fuzzing only (%d): %s" % (
+        len(ENTRIES) - len(MODEL_MAP), ", ".join(sorted(n for n in ENTRIES if n not in MODEL_MAP))))
 
 
 # --------------------------------------------------------------------------- known findings (predicates)
+
+WIF_VALID = WifEncoder.Encode(bytes(range(1, 33)))
+
+
+def wif_net_ver_len(fn, args, record):
+    """C14-WIF-NETVER: WifDecoder.Decode(valid string, net_ver) with len(net_ver) != 1 -> TypeError from ord()."""
+    return fn == "WifDecoder.Decode[net_ver]" and record.get("kind") == "direct" and len(args[0]) != 1 \
+        and "TypeError" in record.get("what", "")
+
+
+def wif_net_ver_len_replay():
+    try:
+        WifDecoder.Decode(WIF_VALID, b"")
+    except ValueError:
+        return None
+    except TypeError as ex:
+        return "WifDecoder.Decode(%r, b'') raises TypeError (%s)" % (WIF_VALID, ex)
+    return "WifDecoder.Decode(%r, b'') returned" % WIF_VALID
